@@ -41,6 +41,7 @@ Sol gen_sol(Rng& rng, const SolGenOpts& o);
 // Writer party: the real mp::WriteSolFile through fopen on `path` (shim-visible).
 // Returns "" on normal completion, else the exception text.
 std::string write_sol_real(const Sol& s, const std::string& path);
+std::string write_sol_driver_entry(const Sol& s, const std::string& stub, bool history);
 
 // Own emitters.  Text: re-implementation used only to locate structural fields (cross-checked
 // against the real writer's bytes by the caller).  Binary: the layout SOLReader2 expects.
